@@ -112,6 +112,7 @@ def make_pair(host_active: bool, seg, delays):
         c.seg_sizes, c.delays = list(seg), list(delays)
     for p in (host.protocol, eq.protocol):
         p._linktest_timeout = 10 ** 6
+    host.protocol._thread._dispatcher_thread_trigger = ClearHook()
     return host, eq, hc, ec
 
 
@@ -214,7 +215,7 @@ def service_calls(res, rng, host, eq, scen, n_calls):
     expected_alarm_msgs = 0
     subscribed = eq.__dict__.setdefault("_v_subscribed", {})  # subscriptions survive reconnects (the equipment keeps its links)
     ops = ["sv", "svs", "ec", "set_ec", "set_ec_bad", "online", "offline", "alarm_en", "alarm_dis", "alarms", "enabled_alarms",
-           "subscribe", "trigger", "trigger", "rcmd", "set_alarm", "clear_alarm", "ayt", "list_svs", "list_ecs", "subscribe_race"]
+           "subscribe", "trigger", "trigger", "rcmd", "set_alarm", "clear_alarm", "ayt", "list_svs", "list_ecs", "subscribe_race", "trigger_burst"]
     for i in range(n_calls):
         op = rng.choice(ops)
         res.bump("c20_ops", op)
@@ -328,6 +329,37 @@ def service_calls(res, rng, host, eq, scen, n_calls):
             if st != "ok" or len(mine) != 1 or mine[0][2] != [eq.sv[11]]:
                 fail("event triggered while enabled, right after the subscription was accepted by the equipment: host received "
                      f"{len(mine)} reports instead of exactly one", 1, (st, mine), klass="c20-event-once")
+        elif op == "trigger_burst":
+            # a second event arrives exactly while the host's dispatcher is between draining its queue and clearing its trigger
+            if not subscribed:
+                continue
+            ceid = rng.choice(sorted(subscribed))
+            disp = host.protocol._thread
+            if not isinstance(disp._dispatcher_thread_trigger, ClearHook):
+                continue
+            with lock:
+                n0 = len([e for e in got_events if e[0] == ceid])
+
+            def second():
+                eq.trigger_collection_events([ceid])
+                t_end = time.time() + 0.5
+                while time.time() < t_end and disp._dispatch_queue.qsize() == 0:
+                    time.sleep(0.002)
+                time.sleep(0.02)
+            disp._dispatcher_thread_trigger.armed = second
+            eq.trigger_collection_events([ceid])
+            deadline = time.time() + CALL_BOUND
+            while time.time() < deadline:
+                with lock:
+                    if len([e for e in got_events if e[0] == ceid]) >= n0 + 2:
+                        break
+                time.sleep(0.005)
+            time.sleep(0.05)
+            with lock:
+                mine = [e for e in got_events if e[0] == ceid][n0:]
+            if len(mine) != 2:
+                fail(f"two triggers of enabled linked event {ceid} in quick succession: the host received {len(mine)} reports instead of exactly two "
+                     "(the second arrived while the dispatcher was finishing its drain)", 2, mine, klass="c20-event-once")
         elif op == "trigger":
             if not subscribed:
                 continue
@@ -381,7 +413,22 @@ def service_calls(res, rng, host, eq, scen, n_calls):
     host.events.alarm_received -= on_alarm
 
 
-def scenario(res, rng, drv_lines, host_active, eq_first, seg, delays, n_calls, cycles, scen):
+class ClearHook(threading.Event):
+    """dispatcher trigger whose `clear()` (when armed) first lets one more message arrive and be queued: the adverse
+    interleaving of the dispatcher's wait/clear/drain loop with the receive path (a correct loop clears BEFORE it drains)"""
+
+    def __init__(self):
+        super().__init__()
+        self.armed = None
+
+    def clear(self):
+        fn, self.armed = self.armed, None
+        if fn is not None:
+            fn()
+        super().clear()
+
+
+def scenario(res, rng, drv_lines, host_active, eq_first, seg, delays, n_calls, cycles, scen, slow_enable=False):
     host, eq, hc, ec = make_pair(host_active, seg, delays)
     tr = Trace(host, eq)
     stop = threading.Event()
@@ -389,6 +436,10 @@ def scenario(res, rng, drv_lines, host_active, eq_first, seg, delays, n_calls, c
     case = {"scenario": scen, "host_active": host_active, "equipment_first": eq_first, "seg": seg[:6], "delays": delays[:6]}
     try:
         first, second = (eq, host) if eq_first else (host, eq)
+        if slow_enable:
+            sc = second.protocol._connection
+            sc.enable_blocks_until = lambda: second.protocol.connection_state.current == ConnectionState.CONNECTED_SELECTED
+            case["slow_enable"] = "second"
         # waiter that starts waiting before communication is established and whose registration is overtaken by the state change
         racer = host if rng.chance(1, 2) else eq
         racer._wait_event_list = SlowList(racer, BOUND)
@@ -468,6 +519,11 @@ def main():
             dl = dels[(n + a.seed) % len(dels)]
             scenario(res, rng.fork(f"s{n}"), drv_lines, ha, ef, seg, dl, 40 if big else 14, 3 if big else 1, f"s{n}")
             n += 1
+    # a transport whose enable() returns only once the link is selected (second-enabled side): the handler must have enabled its
+    # communication state machine before it enables the protocol
+    for ha, ef in (combos if big else [combos[a.seed % 4], combos[(a.seed + 3) % 4]]):
+        scenario(res, rng.fork(f"slow{n}"), drv_lines, ha, ef, [1 << 30], [0.0], 4, 0, f"slow{n}", slow_enable=True)
+        n += 1
     # abstraction check: every observed step of the joint (session, communication) state is a path of the abstract pair model
     drv = hlib.Driver()
     if drv.available and drv_lines:
